@@ -2,7 +2,7 @@ reg("C12",
     level="model_checking",
     technique="explicit-state BFS to fixpoint over the real notification_queue<> for every priority partition of n<=5, reference set model, drain+fairness run from every reachable state",
     rule="states = byte image of the real queue object + reference set; transitions = one real call each (queue_notification/queue_indication/dequeue/confirm/clear); classes = distinct (operation, outcome) kinds observed",
-    bound="all reachable states (fixpoint) for all 31 compositions of n<=5 into priority levels (thorough: + sizes 6,8,9,(4,5),(5,4),(1,8),(3,3,3))",
+    bound="all reachable states (fixpoint) for all 31 compositions of n<=5 into priority levels (thorough: + sizes 6,7,(1,5),(5,1),(2,4),(3,3),(2,2,2))",
     units=[dict(src="harness/C12_notification_queue.cpp")],
     quick_deadline=60, thorough_deadline=600,
     assumptions=["single context (interleavings are C13)", "'within one round' read as: at most 2*levelsize+1 dequeues of that level while every other characteristic of the level is re-queued immediately"],
